@@ -385,6 +385,13 @@ def units(tier, seed):
         add('jac_vec/N%d,M2,deg%d' % (N, m), 'h_driver', driver='jac_vec', N=N, M=2, m=m)
         add('jac_vec/N%d,scalar,deg%d' % (N, m), 'h_driver', driver='jac_vec', N=N, M=1, m=m, kind='scalar')
         add('jacobian/N%d,scalar,deg%d' % (N, m), 'h_driver', driver='jacobian', N=N, M=1, m=m, kind='scalar')
+    if tier != 'quick':
+        for (N, M, mm) in [(2, 3, 5), (3, 3, 5), (5, 2, 3), (6, 1, 2), (2, 4, 6)]:
+            add('jacobian/N%d,M%d,deg%d' % (N, M, mm), 'h_driver', driver='jacobian', N=N, M=M, m=mm)
+            add('jac_vec/N%d,M%d,deg%d' % (N, M, mm), 'h_driver', driver='jac_vec', N=N, M=M, m=mm)
+        for (N, mm) in [(2, 6), (3, 5), (6, 2)]:
+            add('hessian/N%d,deg%d' % (N, mm), 'h_driver', driver='hessian', N=N, M=1, m=mm, kind='scalar')
+            add('hess_vec/N%d,deg%d' % (N, mm), 'h_driver', driver='hess_vec', N=N, M=1, m=mm, kind='scalar')
     for N in ((1, 2, 3, 4) if tier == 'quick' else (1, 2, 3, 4, 5)):
         mm = min(m, 3) if N >= 4 else m
         add('hessian/N%d,deg%d' % (N, mm), 'h_driver', driver='hessian', N=N, M=1, m=mm, kind='scalar')
@@ -400,7 +407,7 @@ def units(tier, seed):
     for layout in ('C', 'F'):
         add('hessian/matrix-shaped seed point/%s layout' % layout, 'h_matrix_seed', driver='hessian', layout=layout)
     for (N, d) in ([(1, 2), (2, 2), (2, 3), (3, 2), (2, 4)] if tier == 'quick' else
-                   [(1, 2), (1, 3), (2, 2), (2, 3), (3, 2), (2, 4), (3, 3), (4, 2), (2, 5), (3, 4)]):
+                   [(1, 2), (1, 3), (2, 2), (2, 3), (3, 2), (2, 4), (3, 3), (4, 2), (2, 5), (3, 4), (4, 3), (5, 2), (2, 6), (1, 6)]):
         add('tensor/N%d,d%d' % (N, d), 'h_tensor', o={'validate': False}, N=N, d=d, m=d + 1)
     for pairs in [[(3, 2), (2, 5)], [(2, 2), (3, 1)], [(2, 3), (4, 1)]]:
         add('tensor sequence %s' % pairs, 'h_tensor_sequence', o={'validate': False}, pairs=pairs)
